@@ -28,6 +28,10 @@ fn key_pool() -> Vec<&'static str> {
         "(0-2^63+1)", "9007199254740992", "9007199254740993", "2147483648", "(0-2147483648)", "4294967296", "(2^70+0-2^70)",
         "(1^1)", "(2^70-1-2^70)", "[0-9223372036854775807-1]", "V(0-9223372036854775807-1)", "[9223372036854775807]",
         "V(9223372036854775807)", "{0-9223372036854775807-1: 1}", "{0-2^63: 1}",
+        // complex numbers with NEGATIVE-zero parts (== to the real number; only negation produces them)
+        "(-(1+0i))", "(0-(1+0i))", "(-(0.5+0i))", "(-(0.0+0i))", "(-(2.0^63+0i))", "(-(2+0i))", "(-(1/2+0i))", "(0-1/2)", "(-0.5)",
+        "(-2.0)", "(0-2)", "[-(1+0i)]", "[0-1]", "[0, -(1+0i)]", "[0, 0-1]", "[-(0.0+0i)]", "V(-(1+0i))", "V(0-1)", "{-(1+0i): 1}",
+        "{0-1: 1}", "(-(1+1i))", "(0-1-1i)",
         // other key kinds
         "null", "\"a\"", "\"1\"", "\"\"", "B\"a\"",
         // nested in lists, vectors, dicts
